@@ -4,7 +4,11 @@ package kz
 import (
 	"errors"
 	"io"
+	"sort"
 	"strings"
+	"sync"
+
+	kanzi "github.com/flanglet/kanzi-go/v2"
 
 	kio "github.com/flanglet/kanzi-go/v2/io"
 	"kzverif/fio"
@@ -20,6 +24,33 @@ type Cfg struct {
 	Hint       int64  `json:"hint"` // <0: key absent, 0: unknown, >0 size hint
 	Headerless bool   `json:"headerless"`
 	SkipBlocks bool   `json:"skipBlocks"`
+	// Verbosity > 0: the context carries "verbosity" and a listener is registered (what the command line tool does with -v)
+	Verbosity uint       `json:"verbosity,omitempty"`
+	Events    *Collector `json:"-"`
+}
+
+// Collector is a listener that keeps the BLOCK_INFO messages (block id, position in the bit stream, skip flags)
+type Collector struct {
+	mu   sync.Mutex
+	Msgs []string
+}
+
+func (c *Collector) ProcessEvent(e *kanzi.Event) {
+	if e.Type() != kanzi.EVT_BLOCK_INFO {
+		return
+	}
+	c.mu.Lock()
+	c.Msgs = append(c.Msgs, e.String())
+	c.mu.Unlock()
+}
+
+// Sorted returns the messages in a canonical order
+func (c *Collector) Sorted() []string {
+	c.mu.Lock()
+	defer c.mu.Unlock()
+	out := append([]string(nil), c.Msgs...)
+	sort.Strings(out)
+	return out
 }
 
 // Ctx builds the writer context for a configuration.
@@ -31,6 +62,9 @@ func (c Cfg) Ctx() map[string]any {
 	}
 	if c.SkipBlocks {
 		ctx["skipBlocks"] = true
+	}
+	if c.Verbosity > 0 {
+		ctx["verbosity"] = c.Verbosity
 	}
 	return ctx
 }
@@ -86,6 +120,9 @@ func Compress(data []byte, c Cfg, parts []int, hook kio.VerifHookFunc) ([]byte, 
 	w, err := kio.NewWriterWithCtx(sink, ctx)
 	if err != nil {
 		return nil, err
+	}
+	if c.Verbosity > 0 && c.Events != nil {
+		w.AddListener(c.Events)
 	}
 	if _, err := WriteAll(w, data, parts); err != nil {
 		w.Close()
@@ -143,11 +180,16 @@ type RCfg struct {
 	// headerless parameters
 	W *Cfg `json:"w,omitempty"`
 	// OrigSize for headerless streams (0 unknown)
-	OrigSize int64 `json:"origSize"`
+	OrigSize  int64      `json:"origSize"`
+	Verbosity uint       `json:"verbosity,omitempty"`
+	Events    *Collector `json:"-"`
 }
 
 func (c RCfg) Ctx() map[string]any {
 	ctx := map[string]any{"jobs": c.Jobs}
+	if c.Verbosity > 0 {
+		ctx["verbosity"] = c.Verbosity
+	}
 	if c.From > 0 {
 		ctx["from"] = c.From
 	}
@@ -210,6 +252,9 @@ func Decompress(stream []byte, c RCfg, chunks []int, lens []int, hook kio.VerifH
 	r, err := kio.NewReaderWithCtx(src, ctx)
 	if err != nil {
 		return nil, err
+	}
+	if c.Verbosity > 0 && c.Events != nil {
+		r.AddListener(c.Events)
 	}
 	out, err, _ := ReadAll(r, lens, limit)
 	cerr := r.Close()
